@@ -8,6 +8,14 @@ BASELINE_OFF = ("cd /repo && export PATH=/opt/veriftools/go1.26.8/bin:$PATH GOFL
 TECH = "contract-based deductive verification: WP-style VCs over go/ssa of the real code, discharged by z3/cvc5"
 
 CLAIMED = {
+    "C12": dict(cat="proof", ref="DESIGN.md §4.12",
+        text=("Unbounded proof that the real quorum functions compute exactly what the property states, with the specification written in counting form "
+              "over the voter set: VoteResult == Won iff #yes >= n/2+1, Lost iff #yes + #missing < n/2+1, Pending otherwise (empty set wins); "
+              "CommittedIndex r satisfies #{ack >= r} >= n/2+1 (for r > 0) and #{ack > r} < n/2+1 (missing = 0); the joint functions combine the halves "
+              "(min / both-won, an empty half imposes no constraint). Map iteration is verified for an arbitrary order."),
+        note=("Trusted: govc semantics, SMT solvers; slices.Sort contract (sorted permutation); engine axioms A-count (count along any enumeration = count of the set) "
+              "and L-count (point update, all-zero array, order statistic of a sorted window, permutation invariance of array counts) - elementary counting facts not proved in SMT; "
+              "the AckedIndexer interface is abstracted by an uninterpreted acknowledgement function.")),
     "C16": dict(cat="proof", ref="DESIGN.md §4.16",
         text=("Unbounded proof, per function, of the size/flow-control clauses: limitSize returns a non-empty maximal prefix within the byte budget "
               "(single oversized entry excepted); Inflights ring-buffer operations keep count <= size, Add requires not-Full and enqueues exactly one "
